@@ -218,8 +218,9 @@ fn parse(text: &str, allow_substvar: bool) -> Parse {
 
                 if self.current() == Some(IDENT) {
                     self.bump();
-                    // A version with an epoch ("1:2.0") is lexed as IDENT COLON IDENT.
-                    if self.current() == Some(COLON) {
+                    // A version with an epoch ("1:2.0") is lexed as IDENT COLON IDENT; the
+                    // upstream part of such a version may contain further colons.
+                    while self.current() == Some(COLON) {
                         self.bump();
                         if self.current() == Some(IDENT) {
                             self.bump();
